@@ -21,6 +21,7 @@ type Runner struct {
 	bgCalls     sync.WaitGroup
 	ctr         [16]uint64
 	restoreTag  uint64
+	lastCut     *Node
 }
 
 func (rn *Runner) sleepUntil(ms int) {
@@ -132,6 +133,37 @@ func (rn *Runner) doStep(st Step) {
 				}
 			}
 		}
+	case "lease-cut":
+		rn.leaseCut(int(st.V[0]))
+	case "pv-isolate":
+		rn.pvIsolate(st.N)
+	case "pv-check":
+		for _, nd := range c.Nodes {
+			c.Reading(nd, "pv-after")
+		}
+	case "quiet-read":
+		for _, nd := range c.Nodes {
+			c.Reading(nd, "quiet")
+		}
+	case "apply-on":
+		nd := rn.node(st.N[0])
+		if nd != nil {
+			rn.ctr[13]++
+			payload := fmt.Sprintf("x.%d k0", rn.ctr[13])
+			rn.bg(func() { c.Apply(13, nd, payload, 50*time.Millisecond) })
+		}
+	case "apply-cut-leader":
+		if rn.lastCut != nil {
+			nd := rn.lastCut
+			rn.ctr[13]++
+			payload := fmt.Sprintf("x.%d k0", rn.ctr[13])
+			rn.bg(func() { c.Apply(13, nd, payload, 50*time.Millisecond) })
+		}
+	case "verify-cut-leader":
+		if rn.lastCut != nil {
+			nd := rn.lastCut
+			rn.bg(func() { c.Verify(94, nd) })
+		}
 	case "heal":
 		c.Net.Heal()
 	case "crash":
@@ -234,6 +266,96 @@ func (rn *Runner) doStep(st Step) {
 		}
 	case "wait":
 	}
+}
+
+// currentVoters returns the voters of nd's latest configuration.
+func currentVoters(in *Inst) (voters []string, all []string) {
+	cfg := in.r.GetConfiguration().Configuration()
+	for _, s := range cfg.Servers {
+		all = append(all, string(s.ID))
+		if s.Suffrage == raft.Voter {
+			voters = append(voters, string(s.ID))
+		}
+	}
+	return
+}
+
+// leaseCut atomically cuts the current leader off from enough voters that no
+// voter majority remains reachable. shape 0: from everybody; 1: from all
+// voters, non-voters stay reachable; 2: a minority of voters stays reachable.
+func (rn *Runner) leaseCut(shape int) {
+	c := rn.C
+	l := c.Leader()
+	if l == nil {
+		return
+	}
+	in := l.Cur()
+	if in == nil {
+		return
+	}
+	voters, all := currentVoters(in)
+	isVoter := map[string]bool{}
+	for _, v := range voters {
+		isVoter[v] = true
+	}
+	keep := map[string]bool{}
+	name := "all"
+	switch shape {
+	case 1:
+		name = "voters-cut-nonvoters-reachable"
+		for _, s := range all {
+			if !isVoter[s] {
+				keep[s] = true
+			}
+		}
+	case 2:
+		name = "minority-of-voters-reachable"
+		// quorum needs len/2+1 including the leader; keep at most quorum-2 other voters
+		allowed := len(voters)/2 + 1 - 2
+		for _, v := range voters {
+			if v != l.name && allowed > 0 {
+				keep[v] = true
+				allowed--
+			}
+		}
+		for _, s := range all {
+			if !isVoter[s] {
+				keep[s] = true
+			}
+		}
+	}
+	var pairs [][2]string
+	for _, o := range c.Nodes {
+		if o != l && !keep[o.name] {
+			pairs = append(pairs, [2]string{l.name, o.name}, [2]string{o.name, l.name})
+		}
+	}
+	c.Net.CutMany(pairs)
+	rn.lastCut = l
+	l.disk.LogIfLive(in.ep, Ev{K: "m.lease.cut", A: uint64(c.P.LeaseMs), X: name, B: uint64(len(voters))})
+}
+
+// pvIsolate cuts the given servers (as a group) off from everybody else.
+func (rn *Runner) pvIsolate(idx []int) {
+	c := rn.C
+	in := map[string]bool{}
+	names := ""
+	for _, i := range idx {
+		if nd := rn.node(i); nd != nil {
+			in[nd.name] = true
+			names += nd.name + " "
+		}
+	}
+	var pairs [][2]string
+	for _, a := range c.Nodes {
+		for _, b := range c.Nodes {
+			if a != b && in[a.name] != in[b.name] {
+				pairs = append(pairs, [2]string{a.name, b.name})
+			}
+		}
+	}
+	c.Net.CutMany(pairs)
+	c.W.Log(Ev{K: "m.pv.isolate", X: names})
 }
 
 // crashLimited never takes down more servers than would leave fewer than a
